@@ -15,6 +15,87 @@ def bound_terms(e):
     return None
 
 
+def bond_index_rule(chk, src, rule):
+    """explicit-list and configuration paths address the same bond, and that bond is the one being truncated"""
+    cc = src.cls("renormalizer/utils/configs.py", "CompressConfig")
+    fx = cc.methods["_fixed_m_trunc"]
+    # ---- bond-index
+    from ..flow import sym_eval
+    import sympy as sp
+    I = sp.Symbol("idx")
+    cp = src.func(MP, "MatrixProduct.compress")
+    sub = [n for n in ast.walk(cp.node) if isinstance(n, ast.Subscript) and unparse(n.value) == "temp_m_trunc"]
+    cfg = [c for c in ast.walk(cp.node) if isinstance(c, ast.Call) and unparse(c.func).endswith("compute_m_trunc")]
+    bi = [s for s in ast.walk(fx.node) if isinstance(s, ast.Assign) and unparse(s.targets[0]) == "bond_idx"]
+    md = [n for n in ast.walk(fx.node) if isinstance(n, ast.Subscript) and unparse(n.value) == "self.max_dims"]
+    if len(sub) != 1 or len(cfg) != 1 or len(md) != 1:
+        raise AnalysisError("compress / _fixed_m_trunc: kept-count paths not recognised")
+    fparams = fx.params()       # self, sigma, idx, left
+    cargs = [unparse(a) for a in cfg[0].args] + [None] * 3
+    for k in cfg[0].keywords:
+        if k.arg in fparams:
+            cargs[fparams.index(k.arg) - 1] = unparse(k.value)
+    # local index names of compress (e.g. `bond_idx = idx + 1 if self.to_right else idx`) are resolved through their single definition
+    local_defs = {}
+    for st_ in ast.walk(cp.node):
+        if isinstance(st_, ast.Assign) and len(st_.targets) == 1 and isinstance(st_.targets[0], ast.Name):
+            local_defs.setdefault(st_.targets[0].id, []).append(st_.value)
+    for direction in (True, False):
+        cenv = {"idx": I}
+        for nm, vals in local_defs.items():
+            if len(vals) == 1 and nm != "idx":
+                try:
+                    cenv[nm] = sym_eval(vals[0], {"idx": I}, {"self.to_right": direction})
+                except AnalysisError:
+                    pass
+        explicit = sym_eval(sub[0].slice, cenv, {"self.to_right": direction})
+        # config path: compute_m_trunc(sigma, <site>, <left>) -> _fixed_m_trunc(sigma, idx, left) -> max_dims[bond]
+        site = sym_eval(cfg[0].args[1], cenv, {"self.to_right": direction})
+        from ..flow import bool_eval
+        left = bool_eval(ast.parse(cargs[2], mode="eval").body, {"self.to_right": direction})
+        env = {"idx": site}
+        if bi:
+            env["bond_idx"] = sym_eval(bi[0].value, {"idx": site}, {"left": left})
+        config = sym_eval(md[0].slice, env, {"left": left})
+        chk.ob(rule, f"compress[to_right={direction}]: explicit list vs config path", sp.simplify(explicit - config) == 0, cp.where,
+               {"explicit": str(explicit), "config": str(config)}, "same bond", line=cp.node.lineno,
+               detail="an explicit per-bond list and CompressConfig.max_dims must limit the same bond for a given site and sweep direction")
+        want = I + 1 if direction else I
+        chk.ob(rule, f"compress[to_right={direction}]: bond on the sweep side of site idx", sp.simplify(explicit - want) == 0, cp.where, str(explicit), str(want),
+               line=cp.node.lineno, detail="sweeping right the new bond is idx+1, sweeping left it is idx")
+    up = src.func(MP, "MatrixProduct._update_mps")
+    calls = [c for c in ast.walk(up.node) if isinstance(c, ast.Call) and unparse(c.func).endswith("compute_m_trunc")]
+    seen = {}
+    for c in calls:
+        # which branch: find enclosing `if self.to_right`
+        args = [unparse(a).replace(" ", "") for a in c.args]
+        seen.setdefault(args[1], []).append(args)
+    okp = set(seen) == {"cidx[0]", "cidx[-1]"} and all(a[2] == "self.to_right" for v in seen.values() for a in v)
+    # cidx[0] must be in to_right branches, cidx[-1] in the others
+    def branch_of(call):
+        for n in ast.walk(up.node):
+            if isinstance(n, ast.If) and unparse(n.test) == "self.to_right":
+                if any(x is call for s in n.body for x in ast.walk(s)):
+                    return True
+                if any(x is call for s in n.orelse for x in ast.walk(s)):
+                    return False
+        return None
+    okbr = all((branch_of(c) is True) == (unparse(c.args[1]).replace(" ", "") == "cidx[0]") for c in calls)
+    chk.ob(rule, "_update_mps: site passed per direction", okp and okbr, up.where, {k: len(v) for k, v in seen.items()}, "cidx[0] when sweeping right, cidx[-1] when sweeping left",
+           line=up.node.lineno, detail="the bond between the two blocks is cidx[0]+1 (right sweep) = cidx[-1] (left sweep); passing the other site limits the wrong bond")
+    for rel, qual in ((TREE, "TTNS.compress_node"), (TREE, "TTNS.update_2site")):
+        fi = src.func(rel, qual)
+        cfgc = [c for c in ast.walk(fi.node) if isinstance(c, ast.Call) and unparse(c.func).endswith("compute_m_trunc")]
+        lst = [n for n in ast.walk(fi.node) if isinstance(n, ast.Subscript) and isinstance(n.value, ast.Name) and n.value.id in ("temp_m_trunc", "m") and isinstance(n.ctx, ast.Load)]
+        if len(cfgc) != 1 or len(lst) != 1:
+            raise AnalysisError(f"{fi.where}: kept-count paths not recognised")
+        a_idx = unparse(cfgc[0].args[1]).replace(" ", "")
+        l_idx = unparse(lst[0].slice).replace(" ", "")
+        left = [unparse(k.value) for k in cfgc[0].keywords if k.arg == "left"] + [unparse(a) for a in cfgc[0].args[2:3]]
+        chk.ob(rule, f"{qual}: list path and config path use the same node index", a_idx == l_idx and left == ["False"], fi.where, {"config": a_idx, "list": l_idx, "left": left},
+               "same index, left=False", line=fi.node.lineno)
+
+
 def run(chk):
     src = chk.src
     chk.explanation = (
@@ -161,81 +242,7 @@ def run(chk):
         ok = any("m_trunc" in t and f"len({sname})" in t for t in clamps)
         chk.ob("trunc-bound", f"{qual}: explicit limit clamped by len({sname})", ok, fi.where, clamps, f"m_trunc = min(m_trunc, len({sname}))", line=fi.node.lineno,
                detail="an explicit temporary limit larger than the number of singular values must be clamped")
-    # ---- bond-index
-    from ..flow import sym_eval
-    import sympy as sp
-    I = sp.Symbol("idx")
-    cp = src.func(MP, "MatrixProduct.compress")
-    sub = [n for n in ast.walk(cp.node) if isinstance(n, ast.Subscript) and unparse(n.value) == "temp_m_trunc"]
-    cfg = [c for c in ast.walk(cp.node) if isinstance(c, ast.Call) and unparse(c.func).endswith("compute_m_trunc")]
-    bi = [s for s in ast.walk(fx.node) if isinstance(s, ast.Assign) and unparse(s.targets[0]) == "bond_idx"]
-    md = [n for n in ast.walk(fx.node) if isinstance(n, ast.Subscript) and unparse(n.value) == "self.max_dims"]
-    if len(sub) != 1 or len(cfg) != 1 or len(md) != 1:
-        raise AnalysisError("compress / _fixed_m_trunc: kept-count paths not recognised")
-    fparams = fx.params()       # self, sigma, idx, left
-    cargs = [unparse(a).replace(" ", "") for a in cfg[0].args] + [None] * 3
-    for k in cfg[0].keywords:
-        if k.arg in fparams:
-            cargs[fparams.index(k.arg) - 1] = unparse(k.value).replace(" ", "")
-    # local index names of compress (e.g. `bond_idx = idx + 1 if self.to_right else idx`) are resolved through their single definition
-    local_defs = {}
-    for st_ in ast.walk(cp.node):
-        if isinstance(st_, ast.Assign) and len(st_.targets) == 1 and isinstance(st_.targets[0], ast.Name):
-            local_defs.setdefault(st_.targets[0].id, []).append(st_.value)
-    for direction in (True, False):
-        cenv = {"idx": I}
-        for nm, vals in local_defs.items():
-            if len(vals) == 1 and nm != "idx":
-                try:
-                    cenv[nm] = sym_eval(vals[0], {"idx": I}, {"self.to_right": direction})
-                except AnalysisError:
-                    pass
-        explicit = sym_eval(sub[0].slice, cenv, {"self.to_right": direction})
-        # config path: compute_m_trunc(sigma, <site>, <left>) -> _fixed_m_trunc(sigma, idx, left) -> max_dims[bond]
-        site = sym_eval(cfg[0].args[1], cenv, {"self.to_right": direction})
-        from ..flow import bool_eval
-        left = bool_eval(ast.parse(cargs[2], mode="eval").body, {"self.to_right": direction})
-        env = {"idx": site}
-        if bi:
-            env["bond_idx"] = sym_eval(bi[0].value, {"idx": site}, {"left": left})
-        config = sym_eval(md[0].slice, env, {"left": left})
-        chk.ob("bond-index", f"compress[to_right={direction}]: explicit list vs config path", sp.simplify(explicit - config) == 0, cp.where,
-               {"explicit": str(explicit), "config": str(config)}, "same bond", line=cp.node.lineno,
-               detail="an explicit per-bond list and CompressConfig.max_dims must limit the same bond for a given site and sweep direction")
-        want = I + 1 if direction else I
-        chk.ob("bond-index", f"compress[to_right={direction}]: bond on the sweep side of site idx", sp.simplify(explicit - want) == 0, cp.where, str(explicit), str(want),
-               line=cp.node.lineno, detail="sweeping right the new bond is idx+1, sweeping left it is idx")
-    up = src.func(MP, "MatrixProduct._update_mps")
-    calls = [c for c in ast.walk(up.node) if isinstance(c, ast.Call) and unparse(c.func).endswith("compute_m_trunc")]
-    seen = {}
-    for c in calls:
-        # which branch: find enclosing `if self.to_right`
-        args = [unparse(a).replace(" ", "") for a in c.args]
-        seen.setdefault(args[1], []).append(args)
-    okp = set(seen) == {"cidx[0]", "cidx[-1]"} and all(a[2] == "self.to_right" for v in seen.values() for a in v)
-    # cidx[0] must be in to_right branches, cidx[-1] in the others
-    def branch_of(call):
-        for n in ast.walk(up.node):
-            if isinstance(n, ast.If) and unparse(n.test) == "self.to_right":
-                if any(x is call for s in n.body for x in ast.walk(s)):
-                    return True
-                if any(x is call for s in n.orelse for x in ast.walk(s)):
-                    return False
-        return None
-    okbr = all((branch_of(c) is True) == (unparse(c.args[1]).replace(" ", "") == "cidx[0]") for c in calls)
-    chk.ob("bond-index", "_update_mps: site passed per direction", okp and okbr, up.where, {k: len(v) for k, v in seen.items()}, "cidx[0] when sweeping right, cidx[-1] when sweeping left",
-           line=up.node.lineno, detail="the bond between the two blocks is cidx[0]+1 (right sweep) = cidx[-1] (left sweep); passing the other site limits the wrong bond")
-    for rel, qual in ((TREE, "TTNS.compress_node"), (TREE, "TTNS.update_2site")):
-        fi = src.func(rel, qual)
-        cfgc = [c for c in ast.walk(fi.node) if isinstance(c, ast.Call) and unparse(c.func).endswith("compute_m_trunc")]
-        lst = [n for n in ast.walk(fi.node) if isinstance(n, ast.Subscript) and isinstance(n.value, ast.Name) and n.value.id in ("temp_m_trunc", "m") and isinstance(n.ctx, ast.Load)]
-        if len(cfgc) != 1 or len(lst) != 1:
-            raise AnalysisError(f"{fi.where}: kept-count paths not recognised")
-        a_idx = unparse(cfgc[0].args[1]).replace(" ", "")
-        l_idx = unparse(lst[0].slice).replace(" ", "")
-        left = [unparse(k.value) for k in cfgc[0].keywords if k.arg == "left"] + [unparse(a) for a in cfgc[0].args[2:3]]
-        chk.ob("bond-index", f"{qual}: list path and config path use the same node index", a_idx == l_idx and left == ["False"], fi.where, {"config": a_idx, "list": l_idx, "left": left},
-               "same index, left=False", line=fi.node.lineno)
+    bond_index_rule(chk, src, "bond-index")
 
 
 META = {
